@@ -69,14 +69,18 @@ def strategy(draw):
 
     ops = []
     for _ in range(draw(st.integers(1, 7))):
-        kind = draw(gen.choice(["range", "fdwr", "manual", "timedomain", "range", "manual", "peakonly"]))
-        if kind == "range":
-            ops.append(dict(op="range", range=rng(), kw=draw(st.sampled_from(["none", "empty", "empty"])),
+        kind = draw(gen.choice(["range", "fdwr", "manual", "timedomain", "range", "manual", "peakonly", "retune", "retune"]))
+        if kind == "retune":
+            # same search range again, the shared kwargs dict edited in place in between (a parameter sweep)
+            ops.append(dict(op="range", range="same", kw="shared-prom", prom=draw(st.sampled_from([0.05, 0.3, 1.0, 2.5])), how="tuple"))
+        elif kind == "range":
+            ops.append(dict(op="range", range=rng(), kw=draw(st.sampled_from(["none", "empty", "empty", "prom", "shared-prom", "shared-prom"])),
+                            prom=draw(st.sampled_from([0.05, 0.3, 1.0, 2.5])),
                             how=draw(st.sampled_from(["tuple", "same-list", "same-list"]))))
         elif kind == "peakonly":
             ops.append(dict(op="peakonly", idx=draw(st.lists(st.integers(0, nwin - 1), min_size=1, max_size=max(1, nwin // 3), unique=True))))
         elif kind == "fdwr":
-            ops.append(dict(op="fdwr", n=draw(st.sampled_from([0.5, 1.0, 1.5, 2.0, 2.5])), max_iterations=draw(st.sampled_from([1, 2, 5, 50])),
+            ops.append(dict(op="fdwr", kw=draw(st.sampled_from(["none", "none", "shared-prom"])), prom=draw(st.sampled_from([0.05, 0.3, 1.0])), n=draw(st.sampled_from([0.5, 1.0, 1.5, 2.0, 2.5])), max_iterations=draw(st.sampled_from([1, 2, 5, 50])),
                             dist_fn=draw(st.sampled_from(["lognormal", "normal"])), dist_mc=draw(st.sampled_from(["lognormal", "normal"])),
                             range=rng()))
         elif kind == "manual":
@@ -146,6 +150,7 @@ def check_case(case):
     h = hv.HvsrTraditional(f, A)
     cur_range, cur_kw = (None, None), None
     shared = [None, None]
+    shared_kw = {}
     labels = []
     nontrivial = False
     history = []
@@ -159,7 +164,7 @@ def check_case(case):
         pk = []
         for a in A:
             c = hv.HvsrCurve(f, a)
-            c.update_peaks_bounded(tuple(cur_range))
+            c.update_peaks_bounded(tuple(cur_range), None if not cur_kw else dict(cur_kw))
             pk.append((float(c.peak_frequency), float(c.peak_amplitude)))
         has_peak = np.array([not math.isnan(p[0]) for p in pk])
         P = VP & has_peak
@@ -209,7 +214,15 @@ def check_case(case):
                 mf, ma = float(mf), float(ma)
             except Refusal:
                 mf, ma = math.nan, math.nan
-            c08._check_peak(f"{step}: mean_curve_peak({dist})", f, got["mean_curve"], cur_range, mf, ma)
+            if not cur_kw:
+                c08._check_peak(f"{step}: mean_curve_peak({dist})", f, got["mean_curve"], cur_range, mf, ma)
+            else:
+                # non-default find_peaks options: the single-curve evaluation of the (verified) mean curve is the reference
+                cm = hv.HvsrCurve(f, got["mean_curve"])
+                cm.update_peaks_bounded(tuple(cur_range), dict(cur_kw))
+                same = (math.isnan(mf) and math.isnan(float(cm.peak_frequency))) or (mf == float(cm.peak_frequency) and ma == float(cm.peak_amplitude))
+                require(same, f"{step}: mean_curve_peak({dist}) = ({mf}, {ma}) but the mean curve evaluated as a single curve with {cur_kw} peaks at "
+                              f"({float(cm.peak_frequency)}, {float(cm.peak_amplitude)})")
         rejected = ~W
         if rejected.any():
             allmean = oracle.mean_dist(A, "lognormal", axis=0)
@@ -221,7 +234,7 @@ def check_case(case):
                 G = A.copy()
                 G[both_rej] = G[both_rej][:, ::-1] * 7.5 + 3.0
                 twin = hv.HvsrTraditional(f, G)
-                twin.update_peaks_bounded(tuple(cur_range), cur_kw)
+                twin.update_peaks_bounded(tuple(cur_range), None if cur_kw is None else dict(cur_kw))
                 twin.valid_window_boolean_mask = W.copy()
                 twin.valid_peak_boolean_mask = VP.copy()
                 for dist in ("lognormal", "normal"):
@@ -238,7 +251,7 @@ def check_case(case):
                 alone = hv.HvsrTraditional(f, A[W])
             else:       # the other public constructor
                 alone = hv.HvsrTraditional.from_hvsr_curves([hv.HvsrCurve(f, a) for a in A[W]])
-            alone.update_peaks_bounded(tuple(cur_range), cur_kw)
+            alone.update_peaks_bounded(tuple(cur_range), None if cur_kw is None else dict(cur_kw))
             for dist in ("lognormal", "normal"):
                 keys = _stats_reference(f, A, W, P_f, P_a, dist, nstd).keys()
                 a_, b_ = _stats_object(h, dist, nstd, keys), _stats_object(alone, dist, nstd, keys)
@@ -251,22 +264,38 @@ def check_case(case):
     for k, op in enumerate(case["ops"], start=1):
         step = f"after op {k} ({op['op']})"
         if op["op"] == "range":
-            cur_range, cur_kw = tuple(op["range"]), (None if op["kw"] == "none" else {})
+            cur_range = tuple(cur_range) if op["range"] == "same" else tuple(op["range"])
+            kwk = op.get("kw", "none")
+            if kwk == "shared-prom":
+                shared_kw["prominence"] = op["prom"]     # one dict object re-used and edited in place (a tuning loop)
+                arg_kw, cur_kw = shared_kw, dict(shared_kw)
+                labels.append("same-kwargs-dict-reused")
+            elif kwk == "prom":
+                arg_kw = {"prominence": op["prom"]}
+                cur_kw = dict(arg_kw)
+            else:
+                arg_kw = cur_kw = (None if kwk == "none" else {})
             if op.get("how") == "same-list":
                 shared[0], shared[1] = cur_range       # one list object re-used and edited in place by the caller
-                sut(h.update_peaks_bounded, shared, cur_kw, what="update_peaks_bounded")
+                sut(h.update_peaks_bounded, shared, arg_kw, what="update_peaks_bounded")
                 labels.append("same-list-reused")
             else:
-                sut(h.update_peaks_bounded, cur_range, cur_kw, what="update_peaks_bounded")
+                sut(h.update_peaks_bounded, cur_range, arg_kw, what="update_peaks_bounded")
         elif op["op"] == "peakonly":
             for i in op["idx"]:
                 h.valid_peak_boolean_mask[i] = False     # window kept for the curves, its peak excluded from fn statistics
             labels.append("peak-mask-only")
         elif op["op"] == "fdwr":
-            cur_range, cur_kw = tuple(op["range"]), None
+            cur_range = tuple(op["range"])
+            if op.get("kw") == "shared-prom":
+                shared_kw["prominence"] = op["prom"]
+                arg_kw, cur_kw = shared_kw, dict(shared_kw)
+                labels.append("same-kwargs-dict-reused")
+            else:
+                arg_kw = cur_kw = None
             try:
                 sut(hv.frequency_domain_window_rejection, h, n=op["n"], max_iterations=op["max_iterations"],
-                    distribution_fn=op["dist_fn"], distribution_mc=op["dist_mc"], search_range_in_hz=cur_range,
+                    distribution_fn=op["dist_fn"], distribution_mc=op["dist_mc"], search_range_in_hz=cur_range, find_peaks_kwargs=arg_kw,
                     allow=(ValueError,), what="frequency_domain_window_rejection")
             except Refusal:
                 labels.append("fdwr-refused")
